@@ -11,7 +11,7 @@ META = {
                    'global alpha byte reaches every shader (or the arm is guarded by alpha == 255); R03.6 the three float->byte alpha '
                    'conversions are x*255+0.5 and saturate; R03.7 no rectangle uses a bare extent as max corner with a non-zero min; '
                    'plus R02.6/R02.7 (indexing, zero weight).',
-    'decides': ['R03.1 blend dispatch law', 'R03.2 blitter selection table and field plumbing', 'R03.3 mask-less route only without clip', 'R03.4 operand roles per pixel',
+    'decides': ['R03.11 the global alpha byte is converted to the 0..=256 scale exactly once on its way to every per-pixel multiplier (constructor field composed with the call-site argument)', 'R03.1 blend dispatch law', 'R03.2 blitter selection table and field plumbing', 'R03.3 mask-less route only without clip', 'R03.4 operand roles per pixel',
                 'R03.5 global alpha plumbing', 'R03.6 alpha byte conversions saturate', 'R03.7 mask placement (position vs extent)', 'R02.6 index agreement', 'R02.7 zero coverage identity'],
     'does_not_decide': ['the arithmetic of the sw-composite combinators and blend formulas', 'exactness at full coverage', 'position independence beyond the index forms'],
     'assumptions': ['sw_composite::blend::V implements blend mode V; lerp/over_in/over_in_in/alpha_lerp as documented (external)'],
@@ -29,4 +29,4 @@ _r18_2.__name__ = 'r18_2'
 
 def run(ctx):
     import engine
-    engine.run_rules(ctx, [dt.r03_1, dt.r03_2, dt.r03_3, dt.r03_4, dt.r03_5, dt.r03_6, dt.r03_7, dt.r03_8, dt.r02_6, dt.r02_7, dt.r02_3, dt.r03_9, dt.r03_10, _r18_2])
+    engine.run_rules(ctx, [dt.r03_1, dt.r03_2, dt.r03_3, dt.r03_4, dt.r03_5, dt.r03_6, dt.r03_7, dt.r03_8, dt.r02_6, dt.r02_7, dt.r02_3, dt.r03_9, dt.r03_10, dt.r03_11, _r18_2])
